@@ -1,21 +1,25 @@
 #!/bin/bash
-# selftest.sh — for every "fixed:" entry in known_findings.txt re-introduce the defect (reverse-apply the fix commit to
-# /repo's working tree), run the property's check, expect exit 1 with a VIOLATION line, and undo.  Development tool:
-# never part of a registered check.  Usage: tools/selftest.sh [property]
+# selftest.sh — for every "fixed:" entry in known_findings.txt re-introduce the defect (reverse-apply the fix commit in a
+# scratch worktree of /repo), run the property's check against that worktree (H4_REPO), expect exit 1 with a VIOLATION
+# line.  Development tool: never part of a registered check; /repo itself is not touched and the evidence files of the
+# real tree are restored afterwards.  Usage: tools/selftest.sh [property]
 set -u
 cd /verif
-git -C /repo diff --quiet || { echo "/repo has local changes; refusing"; exit 3; }
-trap 'git -C /repo checkout -- .' EXIT
-ok=0; bad=0
+WT=/tmp/wt/selftest
+git -C /repo worktree remove --force $WT 2>/dev/null
+git -C /repo worktree add --detach $WT HEAD >/dev/null 2>&1 || { echo "cannot create worktree"; exit 3; }
+SAVE=$(mktemp -d)
+cp -r evidence $SAVE/
+trap 'git -C /repo worktree remove --force $WT; rm -rf evidence; mv $SAVE/evidence evidence; rm -rf $SAVE' EXIT
 grep '^fixed:' known_findings.txt | while read -r _ prop commit rest; do
   p=${prop#property=}
   [ $# -ge 1 ] && [ "$1" != "$p" ] && continue
   revok=1
   for c in $(echo "$commit" | tr '+' ' ' | awk '{for(i=NF;i>0;i--) printf "%s ", $i}'); do
-    git -C /repo show "$c" --format= -- . | git -C /repo apply -R 2>/dev/null || revok=0
+    git -C /repo show "$c" --format= -- . | git -C $WT apply -R 2>/dev/null || revok=0
   done
-  [ $revok -eq 1 ] || { git -C /repo checkout -- .; echo "SKIP  $p $commit (reverse patch does not apply: superseded by a later fix)"; continue; }
-  out=$(./check "$p" --tier quick 2>&1); rc=$?
-  git -C /repo checkout -- .
+  [ $revok -eq 1 ] || { git -C $WT checkout -- .; echo "SKIP  $p $commit (reverse patch does not apply: superseded by a later fix)"; continue; }
+  out=$(H4_REPO=$WT ./check "$p" --tier quick 2>&1); rc=$?
+  git -C $WT checkout -- .
   if [ $rc -eq 1 ]; then echo "FIRES $p $commit: $(echo "$out" | grep -A1 '^VIOLATION' | sed -n 2p | cut -c1-150)"; else echo "MISS  $p $commit (exit $rc): $rest" | cut -c1-200; fi
 done
